@@ -1,4 +1,5 @@
 import UgoVerif.Proofs.C07Ops
+import UgoVerif.Proofs.C07Heap
 import UgoVerif.Gen.VmWrites
 /-
   C07 — a run's outcome depends only on bytecode, globals and arguments.
@@ -15,7 +16,7 @@ import UgoVerif.Gen.VmWrites
   VM/Base, VM/Step and `handlePanic` is `Live` — it gives the same result on two states that
   differ only in dead frame data and the recorded trace, which is exactly the difference that
   `Clear`/`SetBytecode` leave between a used VM and a new one (both nil the whole stack).
-  Not a theorem: that constant function cells in the heap are never overwritten (see notes).
+  `function_cells_immutable`: the heap part of the constants — no function cell is ever overwritten.
 -/
 namespace UgoVerif.Props.C07
 open UgoVerif UgoVerif.Go UgoVerif.VM
@@ -104,6 +105,21 @@ theorem handlePanic_keeps_bytecode (m : String) (s : State) :
   let h := (keeps_handlePanic (codes := s.codes) (consts := s.consts) (mainFn := s.mainFn) (nm := s.numModules) m).elim s
     ⟨rfl, rfl, rfl, rfl⟩
   ⟨h.1, h.2.1⟩
+
+/-- **function_cells_immutable** (heap half of `bytecode_immutable`).  A function cell — the
+    compiled functions among the constants, every closure — is never overwritten by `Run`,
+    from any state, ending in any way, for any fuel: the model overwrites existing heap cells
+    only through `heapUpd` (same-kind update of an array, map or iterator cell) and `boxSet`
+    (write through an `*ObjectPtr`); allocation and `Copy()` append. -/
+theorem function_cells_immutable (F : FloatOps) (fuel : Nat) (g : V) (args : List V) (s : State)
+    (a : Nat) (c : Nat) (f : Option (List Addr)) (h : s.heap[a]? = some (Cell.fn c f)) :
+    (runFrom F fuel g args s).2.heap[a]? = some (Cell.fn c f) :=
+  runFrom_fnk (h0 := s.heap) F fuel g args s (fun _ _ _ h => h) a c f h
+
+/-- one instruction never overwrites a function cell -/
+theorem step_keeps_function_cells (F : FloatOps) (s : State) (a : Nat) (c : Nat) (f : Option (List Addr))
+    (h : s.heap[a]? = some (Cell.fn c f)) : (exec (step F) s).2.heap[a]? = some (Cell.fn c f) :=
+  (fnk_step (h0 := s.heap) F).elim s (fun _ _ _ h => h) a c f h
 
 /-- structural half, over the table REGENERATED from vm.go (and objects.go, modules.go,
     bytecode.go, parser/source_file.go): functions that may store to data rooted at the shared
